@@ -196,9 +196,9 @@ theorem signInPlace_inv {fs0 : FS} {P : Loc → Prop} {cfg : Cfg} {src out : Loc
 
 theorem outputCheck_inv {fs0 : FS} {P : Loc → Prop} {cfg : Cfg} {path output : RawPath} {st st1 : St}
     (h : Inv fs0 P st)
-    (h1 : (cfg.force = true ∨ st.fs (resolve output) = .absent) → P (resolve output))
+    (h1 : (cfg.force = true ∨ st.fs (cfg.rho output) = .absent) → P (cfg.rho output))
     (e : outputCheck cfg path output st = some (some st1)) :
-    Inv fs0 P st1 ∧ (cfg.force = true ∨ st.fs (resolve output) = .absent)
+    Inv fs0 P st1 ∧ (cfg.force = true ∨ st.fs (cfg.rho output) = .absent)
       ∧ (cfg.force = false → st1 = st) := by
   unfold outputCheck at e
   split at e
@@ -224,8 +224,8 @@ theorem outputCheck_inv {fs0 : FS} {P : Loc → Prop} {cfg : Cfg} {path output :
     simpa [pExists, locExists] using hne
 
 theorem signStep_inv {fs0 : FS} {P : Loc → Prop} {cfg : Cfg} {path output : RawPath} {st : St}
-    (h : Inv fs0 P st) (hO : P (resolve output))
-    (hA : ∀ q ∈ prefixes (resolve output).dropLast, fs0 q = .absent → P q) :
+    (h : Inv fs0 P st) (hO : P (cfg.rho output))
+    (hA : ∀ q ∈ prefixes (cfg.rho output).dropLast, fs0 q = .absent → P q) :
     Inv fs0 P (signStep cfg path output st).2 := by
   unfold signStep
   split
@@ -250,11 +250,11 @@ theorem signTail_inv {fs0 : FS} {P : Loc → Prop} {cfg : Cfg} {sc : Loc} {r : O
 
 theorem signBranch_inv {fs0 : FS} {P : Loc → Prop} {cfg : Cfg} {path output : RawPath} {st : St}
     (h : Inv fs0 P st)
-    (h1 : (cfg.force = true ∨ st.fs (resolve output) = .absent) → P (resolve output))
+    (h1 : (cfg.force = true ∨ st.fs (cfg.rho output) = .absent) → P (cfg.rho output))
     (h2 : cfg.sidecar = true →
-      (cfg.force = true ∨ st.fs (resolve (withExtension output "c2pa")) = .absent) →
-      P (resolve (withExtension output "c2pa")))
-    (h3 : ∀ q ∈ prefixes (resolve output).dropLast, fs0 q = .absent → P q) :
+      (cfg.force = true ∨ st.fs (cfg.rho (withExtension output "c2pa")) = .absent) →
+      P (cfg.rho (withExtension output "c2pa")))
+    (h3 : ∀ q ∈ prefixes (cfg.rho output).dropLast, fs0 q = .absent → P q) :
     Inv fs0 P (signBranch cfg path output st).st := by
   unfold signBranch
   dsimp only
@@ -265,7 +265,7 @@ theorem signBranch_inv {fs0 : FS} {P : Loc → Prop} {cfg : Cfg} {path output : 
     · exact h
     · rename_i st1 hchk
       obtain ⟨hi1, hfo, hst⟩ := outputCheck_inv h h1 hchk
-      have hO : P (resolve output) := h1 hfo
+      have hO : P (cfg.rho output) := h1 hfo
       split
       · exact hi1
       · rename_i hsc
@@ -359,8 +359,8 @@ theorem initLoop_inv {fs0 : FS} {P : Loc → Prop} {out : Loc} (rs : List Rend) 
 theorem fragBranch_inv {fs0 : FS} {P : Loc → Prop} {cfg : Cfg} {output : RawPath} {glob : Bool}
     {rends : List Rend} {st : St}
     (h : Inv fs0 P st)
-    (hN : ∀ q, (q <+: resolve output ∨ resolve output <+: q) → fs0 q = .absent → P q)
-    (hD : ∀ r ∈ rends, ∀ d, initDest (resolve output) r = some d →
+    (hN : ∀ q, (q <+: cfg.rho output ∨ cfg.rho output <+: q) → fs0 q = .absent → P q)
+    (hD : ∀ r ∈ rends, ∀ d, initDest (cfg.rho output) r = some d →
       (cfg.force = true ∨ st.fs d = .absent) → P d) :
     Inv fs0 P (fragBranch cfg output glob rends st).st := by
   unfold fragBranch
@@ -372,7 +372,7 @@ theorem fragBranch_inv {fs0 : FS} {P : Loc → Prop} {cfg : Cfg} {output : RawPa
     · split
       · exact h
       · rename_i hchk
-        have hD' : ∀ r ∈ rends, ∀ d, initDest (resolve output) r = some d → P d := by
+        have hD' : ∀ r ∈ rends, ∀ d, initDest (cfg.rho output) r = some d → P d := by
           intro r hr d hd
           apply hD r hr d hd
           cases hf : cfg.force with
@@ -396,13 +396,13 @@ theorem fragBranch_inv {fs0 : FS} {P : Loc → Prop} {cfg : Cfg} {output : RawPa
                 · exact mkdirAll_inv h
                     (fun q hq => hN q (Or.inl (prefixes_prefix _ _ hq))) e1
                 · cases e1; exact h
-              have h2 := fragLoop_inv (cfg := cfg) (out := resolve output) rends st1 h1 hN
+              have h2 := fragLoop_inv (cfg := cfg) (out := cfg.rho output) rends st1 h1 hN
               split
               · rename_i st2 e2
                 rw [e2] at h2; exact h2
               · rename_i st2 e2
                 rw [e2] at h2
-                have h3 := initLoop_inv (out := resolve output) rends st2 h2 hD'
+                have h3 := initLoop_inv (out := cfg.rho output) rends st2 h2 hD'
                 split
                 · rename_i st3 e3
                   rw [e3] at h3; exact h3
@@ -414,9 +414,9 @@ theorem fragBranch_inv {fs0 : FS} {P : Loc → Prop} {cfg : Cfg} {output : RawPa
 
 theorem folderBranch_inv {fs0 : FS} {P : Loc → Prop} {cfg : Cfg} {path output : RawPath} {st : St}
     (h : Inv fs0 P st)
-    (hN : ∀ q, (q <+: resolve output ∨ resolve output <+: q) → fs0 q = .absent → P q)
-    (hR : cfg.force = true → ∀ q, resolve output <+: q → P q)
-    (hC : ∀ n, (cfg.force = true ∨ st.fs (resolve output) = .absent) → P (resolve output ++ [n])) :
+    (hN : ∀ q, (q <+: cfg.rho output ∨ cfg.rho output <+: q) → fs0 q = .absent → P q)
+    (hR : cfg.force = true → ∀ q, cfg.rho output <+: q → P q)
+    (hC : ∀ n, (cfg.force = true ∨ st.fs (cfg.rho output) = .absent) → P (cfg.rho output ++ [n])) :
     Inv fs0 P (folderBranch cfg path output st).st := by
   unfold folderBranch
   dsimp only
@@ -426,7 +426,7 @@ theorem folderBranch_inv {fs0 : FS} {P : Loc → Prop} {cfg : Cfg} {path output 
     · exact h
     · exact h
     · rename_i st1 hchk
-      have key : Inv fs0 P st1 ∧ (cfg.force = true ∨ st.fs (resolve output) = .absent) := by
+      have key : Inv fs0 P st1 ∧ (cfg.force = true ∨ st.fs (cfg.rho output) = .absent) := by
         split at hchk
         · split at hchk
           · rename_i hforce
@@ -441,7 +441,7 @@ theorem folderBranch_inv {fs0 : FS} {P : Loc → Prop} {cfg : Cfg} {path output 
           exact ⟨h, Or.inr (by simpa [pExists, locExists] using hne)⟩
       obtain ⟨hi1, hfo⟩ := key
       have hW : ∀ {s s' : St} {n : String} {c : Content}, Inv fs0 P s →
-          writeFile (resolve output ++ [n]) c s = some s' → Inv fs0 P s' :=
+          writeFile (cfg.rho output ++ [n]) c s = some s' → Inv fs0 P s' :=
         fun hs e => writeFile_inv hs (fun _ => hC _ hfo) (fun _ => hC _ hfo) e
       split
       · exact hi1
